@@ -1110,6 +1110,17 @@ func (fx *Fx) specCall(env *SpecEnv, e *SCall) Val {
 				sfail("heap() needs a string literal")
 			}
 			srt, known := c.heapSorts()[s.V]
+			if !known && strings.HasPrefix(s.V, "G:") {
+				// a ghost field's heap has the declared sort wherever it is first mentioned
+				if g, ok := fx.w.Ghosts[strings.TrimPrefix(s.V, "G:")]; ok {
+					gs, _ := env.sortOfName(g.Sort)
+					srt, known = "(Array Int "+gs+")", true
+				}
+			}
+			if !known && strings.HasPrefix(s.V, "E:") {
+				// element heaps of pointer slices: nested arrays of references
+				srt, known = "(Array Int (Array Int Int))", strings.HasPrefix(s.V, "E:P")
+			}
 			if !known {
 				if len(e.Args) > 1 {
 					srt = e.Args[1].(*SStr).V
@@ -1452,6 +1463,7 @@ func (fx *Fx) specFuncApp(env *SpecEnv, sf *SpecFunc, args []Val) Val {
 			}
 			body := fx.specEval(n, sf.Body)
 			c.decls = append(c.decls, fmt.Sprintf("(define-fun-rec %s (%s) %s %s)", name, strings.Join(decl, " "), rs, body.T))
+			c.markDeclared(name)
 		}
 	}
 	if len(terms) == 0 {
